@@ -72,6 +72,7 @@ type thread struct {
 	panicV  any
 	panicSt string
 	spawned bool // spawned by code under test (not by the harness)
+	daemon  bool // not a goroutine of its own in real Go (e.g. a context.AfterFunc registration): ignored at the end while blocked
 }
 
 // abortSentinel is the panic value used to unwind parked threads at the end of an execution.
@@ -84,6 +85,7 @@ type event struct {
 	label string
 	vc    VC
 	dead  bool
+	idle  func() bool // non-nil for periodic events (tickers): true when firing would change nothing
 }
 
 // Point is one recorded scheduling decision with more than one alternative.
@@ -349,6 +351,18 @@ func (s *sched) addEvent(at int64, label string, fire func()) *event {
 	return e
 }
 
+// liveEvents: is there a pending event that can still change something? Periodic events whose
+// tick would be dropped (ticker channel already full) do not count: with only those left, and
+// no thread enabled, the state is a fixed point (every later instant looks the same).
+func (s *sched) liveEvents() bool {
+	for _, e := range s.events {
+		if !e.dead && (e.idle == nil || !e.idle()) {
+			return true
+		}
+	}
+	return false
+}
+
 func (s *sched) removeDead() {
 	j := 0
 	for _, e := range s.events {
@@ -431,14 +445,14 @@ func (s *sched) schedule(me *thread) {
 		if len(chs) == 0 {
 			// quiescent: advance virtual time or end
 			s.removeDead()
-			if len(s.events) > 0 {
+			if s.liveEvents() {
 				s.now = s.events[0].at
 				s.curIsClock = true
 				continue
 			}
 			allDone := true
 			for _, t := range s.threads {
-				if !t.finished {
+				if !t.finished && !t.daemon {
 					allDone = false
 					s.ex.Blocked = append(s.ex.Blocked, s.describe(t))
 					if t.spawned {
